@@ -7,9 +7,11 @@
 //! leave is materialised
 //!   * `synced`: only what was written before the last full `sync_data` survives,
 //!   * `all`:    every write issued before the point survives,
-//!   * `subset`: a seeded random subset of the whole writes after the last sync survives
-//!               (an eventual sync is a write barrier: a write after it survives only if all
-//!               writes before it do),
+//!   * `subset`: a subset of the whole writes after the last sync survives (enumerated while few
+//!               writes are unsynced, seeded random beyond; an eventual sync is a write barrier: a
+//!               write after it survives only if all writes before it do; a file-size change
+//!               survives whenever a later call does - `subset-lostlen` images, where it does not,
+//!               are beyond the property's fault model and only logged),
 //! reopened through `Database::builder().create_with_backend` + `RedbStore::new`, and the
 //! complete observable projection of the recovered store is logged.  spec/Trace_StoreCrash.tla
 //! decides whether the recovered state is allowed.
@@ -24,11 +26,13 @@ use h_common::{Args, Summary, TraceWriter};
 use lumina_node::store::{RedbStore, Store};
 use rand::rngs::StdRng;
 use rand::{Rng, SeedableRng};
-use redb::{Database, StorageBackend};
+use celestia_types::ExtendedHeader;
+use redb::{Database, ReadableTable, StorageBackend, TableDefinition};
+use tendermint_proto::Protobuf;
 use serde_json::{json, Value};
 use tendermint::Time;
 
-use crate::storelib::{apply, gen_op, project, universe, Intern, Op, Universe, R_OK};
+use crate::storelib::{apply, cid_num, gen_op, project, universe, Intern, Op, Universe, R_OK};
 use celestia_types::hash::Hash;
 use rand::seq::SliceRandom;
 
@@ -127,10 +131,134 @@ fn panic_text(e: Box<dyn std::any::Any + Send>) -> String {
     e.downcast_ref::<String>().cloned().or_else(|| e.downcast_ref::<&str>().map(|s| s.to_string())).unwrap_or_else(|| "panic".into())
 }
 
+const HEIGHTS_TABLE: TableDefinition<'static, &[u8], u64> = TableDefinition::new("STORE.HEIGHTS");
+const HEADERS_TABLE: TableDefinition<'static, u64, &[u8]> = TableDefinition::new("STORE.HEADERS");
+const SAMPLING_METADATA_TABLE: TableDefinition<'static, u64, &[u8]> = TableDefinition::new("STORE.SAMPLING_METADATA");
+
+/// The per-height / per-hash part of the projection for long chains, read in ONE read
+/// transaction from the tables the corresponding Store queries read (get_by_height / has_at:
+/// STORE.HEADERS; get_by_hash / has: STORE.HEIGHTS then STORE.HEADERS; get_sampling_metadata:
+/// STORE.HEADERS then STORE.SAMPLING_METADATA) instead of thousands of single queries.
+fn project_tables(s: &RedbStore, it: &Intern, st: &mut Value) -> Vec<u64> {
+    let db = s.raw_db();
+    let tx = db.begin_read().expect("read tx");
+    let headers = tx.open_table(HEADERS_TABLE).expect("headers table");
+    let heights = tx.open_table(HEIGHTS_TABLE).expect("heights table");
+    let sampling = tx.open_table(SAMPLING_METADATA_TABLE).expect("sampling table");
+    let mut id_at: HashMap<u64, u64> = HashMap::new();
+    let (mut byh, mut hasat, mut meta, mut metanone) = (vec![], vec![], vec![], vec![]);
+    let _: &Vec<u64> = &meta;
+    for row in headers.iter().expect("iter") {
+        let (k, v) = row.expect("row");
+        let h = k.value();
+        let (id, hh) = match it.headers.get(v.value()) {
+            Some(id) => (*id, it.by_id[*id as usize - 1].height()),
+            None => (0, ExtendedHeader::decode(v.value()).map(|x| x.height()).unwrap_or(0)),
+        };
+        id_at.insert(h, id);
+        byh.push(json!([h, id, hh]));
+        hasat.push(h);
+        // rows of the metadata table are decoded through the Store query by the caller
+        match sampling.get(h).expect("get") {
+            Some(_) => meta.push(h),
+            None => metanone.push(h),
+        }
+    }
+    let (mut byhash, mut has) = (vec![], vec![]);
+    for row in heights.iter().expect("iter") {
+        let (k, v) = row.expect("row");
+        let tag = it.hashes.get(k.value()).copied().unwrap_or(0);
+        if let Some(id) = id_at.get(&v.value()) {
+            byhash.push((tag, *id));
+            has.push(tag);
+        }
+    }
+    byhash.sort();
+    has.sort();
+    st["byh"] = json!(byh);
+    st["hasat"] = json!(hasat);
+    st["metanone"] = json!(metanone);
+    st["byhash"] = json!(byhash.iter().map(|(t, i)| json!([t, i])).collect::<Vec<_>>());
+    st["has"] = json!(has);
+    meta
+}
+
+fn to_ranges(v: &Value) -> Value {
+    let mut xs: Vec<u64> = v.as_array().unwrap().iter().map(|x| x.as_u64().unwrap()).collect();
+    xs.sort();
+    let mut out: Vec<[u64; 2]> = vec![];
+    for x in xs {
+        match out.last_mut() {
+            Some(l) if l[1] + 1 == x => l[1] = x,
+            _ => out.push([x, x]),
+        }
+    }
+    json!(out)
+}
+
+/// Run-length form of the projection (a long chain is a handful of runs): `byh` as
+/// [first height, last height, first header id] (ids ascending with the heights), `byhash` as
+/// [first tag, last tag, first header id], `hasat` / `has` / `metanone` as ranges.  A header
+/// stored under a height that is not its own goes to `byh_bad` (must be empty).
+fn compress(st: &mut Value) {
+    let mut runs: Vec<[u64; 3]> = vec![];
+    let mut bad = vec![];
+    let mut rows: Vec<[u64; 3]> = st["byh"].as_array().unwrap().iter().map(|r| [r[0].as_u64().unwrap(), r[1].as_u64().unwrap(), r[2].as_u64().unwrap()]).collect();
+    rows.sort();
+    for [h, id, hh] in rows {
+        if hh != h {
+            bad.push(json!([h, id, hh]));
+        }
+        match runs.last_mut() {
+            Some(l) if l[1] + 1 == h && id != 0 && l[2] != 0 && l[2] + (h - l[0]) == id => l[1] = h,
+            _ => runs.push([h, h, id]),
+        }
+    }
+    st["byh"] = json!(runs);
+    st["byh_bad"] = json!(bad);
+    let mut hruns: Vec<[u64; 3]> = vec![];
+    let mut rows: Vec<[u64; 2]> = st["byhash"].as_array().unwrap().iter().map(|r| [r[0].as_u64().unwrap(), r[1].as_u64().unwrap()]).collect();
+    rows.sort();
+    for [t, id] in rows {
+        match hruns.last_mut() {
+            Some(l) if l[1] + 1 == t && id != 0 && l[2] != 0 && l[2] + (t - l[0]) == id => l[1] = t,
+            _ => hruns.push([t, t, id]),
+        }
+    }
+    st["byhash"] = json!(hruns);
+    for k in ["hasat", "has", "metanone"] {
+        st[k] = to_ranges(&st[k]);
+    }
+}
+
 /// Projection of a store plus the persisted libp2p identity (1 = the identity created when the
 /// database was first opened, 2 = any other).
-async fn project_all(s: &RedbStore, it: &Intern, len: u64, ident: &str) -> Value {
-    let mut st = project(s, it, len).await;
+async fn project_all(s: &RedbStore, it: &Intern, len: u64, ident: &str, fast: bool) -> Value {
+    let mut st = if fast {
+        // range / head queries through the Store API, the per-height part from the tables
+        let rj = |r: lumina_node::block_ranges::BlockRanges| json!(r.as_ref().iter().map(|x| [*x.start(), *x.end()]).collect::<Vec<_>>());
+        let mut st = json!({
+            "stored": rj(s.get_stored_header_ranges().await.unwrap()),
+            "sampled": rj(s.get_sampled_ranges().await.unwrap()),
+            "pruned": rj(s.get_pruned_ranges().await.unwrap()),
+            "head": match s.get_head().await { Ok(h) => json!([it.lookup(&h)]), Err(_) => json!([]) },
+            "hh": match s.head_height().await { Ok(h) => json!([h]), Err(_) => json!([]) },
+        });
+        let with_meta = project_tables(s, it, &mut st);
+        let mut meta = vec![];
+        for h in with_meta {
+            if let Ok(Some(m)) = s.get_sampling_metadata(h).await {
+                let mut cs: Vec<u64> = m.cids.iter().map(cid_num).collect();
+                cs.sort();
+                meta.push(json!([h, cs]));
+            }
+        }
+        st["meta"] = json!(meta);
+        st
+    } else {
+        project(s, it, len).await
+    };
+    compress(&mut st);
     let id = match s.get_identity().await {
         Ok(k) if k.public().to_peer_id().to_string() == ident => 1,
         Ok(_) => 2,
@@ -141,7 +269,7 @@ async fn project_all(s: &RedbStore, it: &Intern, len: u64, ident: &str) -> Value
 }
 
 /// Reopen an image as the node would after a restart and project it.
-async fn recover(image: Vec<u8>, it: &Intern, len: u64, ident: &str) -> Value {
+async fn recover(image: Vec<u8>, it: &Intern, len: u64, ident: &str, fast: bool) -> Value {
     let fut = async {
         let be = JournalBackend::from_image(image);
         let be2 = be.clone();
@@ -157,7 +285,7 @@ async fn recover(image: Vec<u8>, it: &Intern, len: u64, ident: &str) -> Value {
             Err(e) => return json!({"name": "recovered", "ok": 0, "stage": "store", "err": e.to_string()}),
         };
         let t2 = std::time::Instant::now();
-        let st = project_all(&store, it, len, ident).await;
+        let st = project_all(&store, it, len, ident, fast).await;
         let t3 = std::time::Instant::now();
         be2.kill();
         let _ = store.close().await;
@@ -199,6 +327,66 @@ fn gen_crash_op(rng: &mut StdRng, u: &Universe, stored: &[(u64, u64)], stored_ha
     gen_op(rng, u, stored, stored_hashes)
 }
 
+/// Operations of the long-chain histories: inserts of several hundred headers in one call
+/// (one operation = one atomic unit whatever its size), placed as a new head range, adjacent to or
+/// filling the space between stored ranges, sometimes overlapping (rejected); small operations and
+/// removals / marks / metadata updates in between.
+fn gen_big_op(rng: &mut StdRng, u: &Universe, stored: &[(u64, u64)], stored_hashes: &HashMap<u64, Hash>) -> Op {
+    let len = u.len;
+    let roll = rng.gen_range(0..100);
+    if roll < 60 || stored.is_empty() {
+        let n: u64 = if rng.gen_bool(0.7) { *[257u64, 300, 600, 1025].choose(rng).unwrap() } else { rng.gen_range(257..=700) };
+        let mut cands: Vec<(u64, u64)> = vec![]; // (start, amount)
+        if let (Some(first), Some(last)) = (stored.first(), stored.last()) {
+            if last.1 < len {
+                cands.push((last.1 + 1, n.min(len - last.1)));
+                let gap = rng.gen_range(1..=300);
+                if last.1 + gap < len {
+                    cands.push((last.1 + 1 + gap, n.min(len - last.1 - gap)));
+                }
+            }
+            if first.0 > 1 {
+                let m = n.min(first.0 - 1);
+                cands.push((first.0 - m, m));
+            }
+            for w in stored.windows(2) {
+                let (lo, hi) = (w[0].1 + 1, w[1].0 - 1);
+                let m = n.min(hi - lo + 1);
+                cands.push((lo, hi - lo + 1)); // the whole gap, whatever its size
+                cands.push((lo, m));
+                cands.push((hi + 1 - m, m));
+            }
+            if rng.gen_bool(0.1) {
+                // overlaps a stored range: must be rejected as a whole
+                let r = stored.choose(rng).unwrap();
+                let start = rng.gen_range(r.0..=r.1).saturating_sub(rng.gen_range(0..300)).max(1);
+                cands = vec![(start, n.min(len + 1 - start))];
+            }
+        } else {
+            let start = *[1, (len / 3).max(1), rng.gen_range(1..=len.saturating_sub(n).max(1))].choose(rng).unwrap();
+            cands.push((start, n.min(len + 1 - start)));
+        }
+        // prefer the placements that keep the operation big
+        let big: Vec<(u64, u64)> = cands.iter().copied().filter(|c| c.1 > 256).collect();
+        let pick = if !big.is_empty() && rng.gen_bool(0.85) { *big.choose(rng).unwrap() } else { *cands.choose(rng).unwrap() };
+        return Op::Insert(u.a[(pick.0 - 1) as usize..(pick.0 - 1 + pick.1) as usize].to_vec());
+    }
+    if roll < 72 {
+        return gen_crash_op(rng, u, stored, stored_hashes);
+    }
+    let r = stored.choose(rng).unwrap();
+    let h = match rng.gen_range(0..3) {
+        0 => r.0,
+        1 => r.1,
+        _ => rng.gen_range(r.0..=r.1),
+    };
+    match rng.gen_range(0..3) {
+        0 => Op::Remove(h),
+        1 => Op::Mark(h),
+        _ => Op::Meta(h, vec![rng.gen_range(1..=6)]),
+    }
+}
+
 pub struct OpRec {
     pub jb: usize,
     pub je: usize,
@@ -236,14 +424,25 @@ pub fn record(args: &Args) {
     let len = args.opt_u64("len", 14);
     let subsets = args.opt_u64("subsets", 2);
     let exhaustive = args.opt_u64("exhaustive", 0);
+    // long-chain histories (run ids from 1000): inserts of several hundred headers per call
+    let big_runs = args.opt_u64("big-runs", 0);
+    let big_first = args.opt_u64("big-first", 0);
+    let big_ops = args.opt_u64("big-ops", 6);
+    let big_len = args.opt_u64("big-len", 1100);
     let out = args.opt("out").expect("--out").to_string();
     let mut tw = TraceWriter::create(&out);
     let mut sum = Summary::new("storecrash-record");
     let rt = tokio::runtime::Builder::new_current_thread().enable_all().build().unwrap();
     h_common::QUIET_ALL.store(true, std::sync::atomic::Ordering::Relaxed);
     rt.block_on(async {
-        for run in first..first + runs {
-            one_history(seed, run, ops, len, subsets, exhaustive, &mut tw, &mut sum).await;
+        let mut ids: Vec<u64> = (first..first + runs).collect();
+        ids.extend(1000 + big_first..1000 + big_first + big_runs);
+        for run in ids {
+            if run >= 1000 {
+                one_history(seed, run, big_ops, big_len, 1, exhaustive, &mut tw, &mut sum).await;
+            } else {
+                one_history(seed, run, ops, len, subsets, exhaustive, &mut tw, &mut sum).await;
+            }
         }
     });
     let n = tw.finish();
@@ -256,6 +455,7 @@ async fn one_history(seed: u64, run: u64, ops: u64, len: u64, subsets: u64, exha
     let mut rng = StdRng::seed_from_u64(seed.wrapping_mul(1_000_003).wrapping_add(run));
     let base = (Time::now() - Duration::from_secs(1_000_000)).unwrap();
     let mut it = Intern { base_secs: base.unix_timestamp(), ..Default::default() };
+    let big = run >= 1000;
     let u = universe(&mut rng, len, base);
 
     let be = JournalBackend::default();
@@ -266,7 +466,7 @@ async fn one_history(seed: u64, run: u64, ops: u64, len: u64, subsets: u64, exha
 
     tw.emit(json!({"name": "reset", "run": run, "p0": p0}));
     let mut hist: Vec<OpRec> = vec![];
-    let st0 = project_all(&store, &it, len, &ident).await;
+    let st0 = project_all(&store, &it, len, &ident, big).await;
     tw.emit(json!({"name": "op", "i": 0, "op": "init", "res": R_OK, "jb": 0, "je": p0, "st": st0}));
     hist.push(OpRec { jb: 0, je: p0, st: st0 });
 
@@ -282,7 +482,7 @@ async fn one_history(seed: u64, run: u64, ops: u64, len: u64, subsets: u64, exha
                 }
             }
         }
-        let op = gen_crash_op(&mut rng, &u, &stored, &stored_hashes);
+        let op = if big { gen_big_op(&mut rng, &u, &stored, &stored_hashes) } else { gen_crash_op(&mut rng, &u, &stored, &stored_hashes) };
         let (name, mut ev) = match &op {
             Op::Insert(b) => {
                 let mut ids = vec![];
@@ -310,9 +510,15 @@ async fn one_history(seed: u64, run: u64, ops: u64, len: u64, subsets: u64, exha
             }
         };
         let je = be.pos();
-        let st = project_all(&store, &it, len, &ident).await;
+        let st = project_all(&store, &it, len, &ident, big).await;
         if st != hist.last().unwrap().st {
             committed += 1;
+            if let Op::Insert(b) = &op {
+                if b.len() > 256 {
+                    sum.add("big_inserts_committed", 1);
+                    sum.add("journal_entries_in_big_inserts", (je - jb) as u64);
+                }
+            }
         }
         ev["name"] = json!("op");
         ev["i"] = json!(i);
@@ -363,6 +569,26 @@ async fn one_history(seed: u64, run: u64, ops: u64, len: u64, subsets: u64, exha
             }
             sum.add("points_with_sampled_subsets", 1);
         }
+        // The property's fault model loses whole WRITES.  A file-size change (set_len) is not a write:
+        // in the judged images it survives whenever a later call survives.  The raw subset - the size
+        // change lost, a later write kept - is beyond the statement; sampled ones are still reopened
+        // and logged in mode "subset-lostlen" (reported as drift by the driver, never a violation).
+        let mut extra_images: Vec<(&str, Vec<usize>)> = vec![];
+        for (mode, keep) in images.iter_mut() {
+            if *mode != "subset" || keep.is_empty() {
+                continue;
+            }
+            let newest = *keep.iter().max().unwrap();
+            let lens: Vec<usize> = unsynced.iter().copied().filter(|i| *i < newest && matches!(journal[*i], JOp::SetLen(_)) && !keep.contains(i)).collect();
+            if !lens.is_empty() {
+                if k as u64 > exhaustive {
+                    extra_images.push(("subset-lostlen", keep.clone()));
+                }
+                keep.extend(lens);
+                keep.sort();
+            }
+        }
+        images.extend(extra_images);
         for (mode, keep) in images {
             // identical images (nothing unsynced kept / everything kept) are recovered once
             let key = if keep.is_empty() { Some((s, s)) } else if mode == "all" { Some((s, p)) } else { None };
@@ -375,7 +601,7 @@ async fn one_history(seed: u64, run: u64, ops: u64, len: u64, subsets: u64, exha
                         apply_jop(&mut img, &journal[*i]);
                     }
                     let t0 = std::time::Instant::now(); let sz = img.len();
-                    let v = recover(img, &it, len, &ident).await;
+                    let v = recover(img, &it, len, &ident, big).await;
                     if std::env::var("H_REDB_DEBUG").is_ok() { eprintln!("image {} bytes, recover {:?}", sz, t0.elapsed()); }
                     sum.add("images_reopened", 1);
                     if let Some(k) = key {
@@ -384,8 +610,10 @@ async fn one_history(seed: u64, run: u64, ops: u64, len: u64, subsets: u64, exha
                     v
                 }
             };
+            // a file-size change that is lost although a later call survives
+            let lost_growth = unsynced.iter().any(|i| matches!(journal[*i], JOp::SetLen(_)) && !keep.contains(i) && keep.iter().any(|k| k > i));
             let crash = json!({"name": "crash", "p": p, "mode": mode, "acked": acked, "infl": infl as u64,
-                               "unsynced": unsynced.len(), "kept": keep.len()});
+                               "unsynced": unsynced.len(), "kept": keep.len(), "lost_growth": lost_growth as u64});
             let nontrivial = changing && !unsynced.is_empty();
             sum.case("C22", nontrivial.then(|| format!("{run}/{p}/{mode}/{keep:?}")), || json!({"crash": crash, "recovered_ok": rec["ok"]}));
             tw.emit(crash);
